@@ -536,6 +536,14 @@ def rule_f(ctx):
     meta = [d for d in ast.walk(f.node) if isinstance(d, ast.Dict) and any(isinstance(k, ast.Constant) and k.value == "dimensions" for k in d.keys)]
     mk = {k.value: norm(v) for d in meta[:1] for k, v in zip(d.keys, d.values) if isinstance(k, ast.Constant)}
     ctx.ob(R, f.qname, "the canvas metadata carries those dimensions and that origin", dims_ok and len(meta) == 1 and mk.get("dimensions") == am.actual("dims") and mk.get("origin") == am.actual("origin"), str(mk), f.node)
+    # in a dictionary display later entries win: a `**<image>.metadata()` written after the explicit 'dimensions' / 'origin' puts the first image's
+    # geometry back over the bounding box just computed
+    for d_ in meta[:1]:
+        pos_ = {(_k.value if isinstance(_k, ast.Constant) else None): i_ for i_, _k in enumerate(d_.keys) if isinstance(_k, ast.Constant)}
+        later = [norm(v_) for i_, (k_, v_) in enumerate(zip(d_.keys, d_.values)) if k_ is None and "metadata" in norm(v_) and i_ > min(pos_.get("dimensions", 10 ** 6), pos_.get("origin", 10 ** 6))]
+        ctx.ob(R, f.qname, "nothing unpacked into the canvas metadata after 'dimensions' / 'origin' overrides them", not later,
+               f"`**{later[0][:50]}` follows the explicit entries: it carries 'dimensions' and 'origin' of that image, which replace the canvas geometry -- the superposition of images "
+               "that do not all cover the first one is placed and scaled wrongly" if later else "", d_, evidence=True)
     adds = [s_ for s_ in ast.walk(f.node) if isinstance(s_, (ast.AugAssign, ast.Assign)) and ".img" in norm(s_.target if isinstance(s_, ast.AugAssign) else s_.targets[0])]
     ctx.ob(R, f.qname, "every warped input is added (+=) to the canvas array", len(adds) == 2 and all(isinstance(a, ast.AugAssign) and isinstance(a.op, ast.Add) for a in adds), str([norm(a) for a in adds]), f.node,
            evidence=any(isinstance(a, ast.Assign) and isinstance(a.value, ast.Name) and not isinstance(a.targets[0], ast.Name) for a in adds))  # the canvas data are replaced by one warped input
